@@ -228,12 +228,19 @@ def mkMakeArray (sz : Int) (triv : Option Int) : Option View :=
     | none => some (mkMap (newExclusive 0 sz) false)
     | some c => some (.vec (List.replicate sz.toNat c) true)
 
-/-- `ArrValue::filter` : both paths collect `iter()` in order; no element of the modelled arrays
-    fails, so the `'eager` block always completes and the result is an EagerArray -/
+/-- `ArrValue::filter` : through `iter_cheap` into an EagerArray when the source is cheap (its
+    elements are values already), through `iter_lazy` into a LazyArray otherwise (no element is
+    evaluated unless the filter function does it) -/
 def mkFilter (v : View) : View :=
-  match materialize v with
-  | some xs => .vec (xs.filter filtP) true
-  | none => .poison
+  match iterCheap v with
+  | some r =>
+      (match r with
+       | some xs => .vec (xs.filter filtP) true
+       | none => .poison)
+  | none =>
+      (match materializeLazy v with
+       | some xs => .vec (xs.filter filtP) false
+       | none => .poison)
 
 /-- which `Vec`-backed representation a literal is realised as -/
 inductive LitKind where
